@@ -19,6 +19,7 @@
   (crashes / faults: C11), or about handles and caches (C03/C04/C08).
 -/
 import Signac.Proofs.LifeRefineWs
+import Signac.Proofs.LifeNoWrite
 namespace Signac.Refinement
 open Signac Signac.Life Signac.Refine
 
@@ -222,5 +223,125 @@ example : stdRel noPayload [] [] ∧ stdRel emptyDoc [] [] := by
   refine ⟨⟨fun n _ => rfl, fun _ => Or.inl rfl⟩, ⟨fun n hn => ?_, fun _ => Or.inr ?_⟩⟩
   · simp [emptyDoc, hn, Ws.alookup]
   · simp [emptyDoc]
+
+/- ================================================================================================
+   Step level: "never rewrites" (C02) and "a collision leaves both jobs byte-identical" (C04).
+   `Outcome.acc` records every step ANNOUNCED to the file system (performed, failed by itself, or
+   faulted): `n` their number, `trace` the steps newest first, `faulted` whether a fault was consumed.
+   `{}` is the empty record (n = 0, trace = [], faulted = false).  World equalities are exact.
+   ================================================================================================ -/
+
+/-- C02: `init()` of a settled job — under EVERY event schedule (crash, torn write, fault at any
+    position) — announces no step: nothing is written, no event can fire, the world is untouched, the
+    result is ok.  Only directory `k` is constrained; `v` and `force` are arbitrary (in particular
+    `force = false`), and the hypothesis actually used is just `validAt C w k` (`init_valid_no_step`). -/
+theorem init_settled_no_step (C : Codec Sp) (ev : Nat → Option Ev) (k : Key) (v : Sp) (force : Bool)
+    (w : World Sp) (d : JobDir Sp) (hw : w k = some d) (hd : Settled C k.2 d) :
+    run C ev (initProg C k v force) w = ⟨w, .ok, {}⟩ :=
+  init_valid_no_step C ev k v force w (validAt_of_settled C hw hd)
+
+/-- … so it coincides with the event-free run: a crash "during" a re-init cannot damage a valid job -/
+theorem init_settled_any_schedule (C : Codec Sp) (ev : Nat → Option Ev) (k : Key) (v : Sp) (force : Bool)
+    (w : World Sp) (d : JobDir Sp) (hw : w k = some d) (hd : Settled C k.2 d) :
+    run C ev (initProg C k v force) w = run C noEv (initProg C k v force) w := by
+  rw [init_settled_no_step C ev k v force w d hw hd, init_settled_no_step C noEv k v force w d hw hd]
+
+/-- the first `init()` of an absent job: exactly mkdir, open temp, write temp, rename temp onto the
+    state-point file (no Clean needed) -/
+theorem init_fresh_trace (C : Codec Sp) (k : Key) (v : Sp) (force : Bool) (w : World Sp) (hk : w k = none)
+    (hv : C.hash v = k.2) :
+    run C noEv (initProg C k v force) w =
+      ⟨upd w k (some { sp := some (.ok v) }), .ok,
+       ⟨4, [.tmpCommit k spName, .tmpWrite k spName (.ok v), .tmpOpen k spName, .mkdir k], false⟩⟩ :=
+  init_fresh_run C k v force w hk hv
+
+/-- C02 idempotence: after a successful first `init()` a second one (any arguments, any schedule)
+    announces no step -/
+theorem init_twice_no_step (C : Codec Sp) (ev : Nat → Option Ev) (k : Key) (v v' : Sp) (f f' : Bool)
+    (w : World Sp) (hk : w k = none) (hv : C.hash v = k.2) :
+    let w1 := (run C noEv (initProg C k v f) w).w
+    run C ev (initProg C k v' f') w1 = ⟨w1, .ok, {}⟩ := Life.init_twice_no_step C ev k v v' f f' w hk hv
+
+/-- C04: re-key / move / clone onto a destination holding a settled job, event-free, source settled
+    (other directories arbitrary): DestinationExistsError and the final world IS the initial world.
+    Re-key announces three steps — the state-point file of `x` is parked as `…json~`, the rename
+    fails by itself (ENOTEMPTY), the rollback renames the file back —; move announces the one failing
+    rename; clone the one failing `mkdir`. -/
+theorem rekey_collision_no_damage (C : Codec Sp) (x y : Key) (v : Sp) (order : List Ref) (w : World Sp)
+    (D D' : JobDir Sp) (hxy : x ≠ y) (hx : w x = some D) (hD : Settled C x.2 D)
+    (hy : w y = some D') (hD' : Settled C y.2 D') :
+    run C noEv (rekeyProg C x y v) w =
+      ⟨w, destExists, ⟨3, [.bakToSp x, .renameDir x y, .spToBak x], false⟩⟩ ∧
+    run C noEv (moveProg x y) w = ⟨w, destExists, ⟨1, [.renameDir x y], false⟩⟩ ∧
+    run C noEv (cloneProg x y order) w = ⟨w, destExists, ⟨1, [.cpMkdir y ""], false⟩⟩ := by
+  obtain ⟨v0, hsp, hh⟩ := hD.sp
+  exact ⟨rekey_collision_exact C x y v v0 w D D' hxy hx hsp hh hD.bak hy (settled_not_empty C hD'),
+    move_collision_exact C x y w D D' hx hy (settled_not_empty C hD'),
+    clone_collision_exact C x y order w D D' hx hy⟩
+
+/-- the three re-key steps one by one: park changes `x`, the rename fails and changes nothing, the
+    rollback gives back exactly the initial world -/
+theorem rekey_collision_steps (C : Codec Sp) (x y : Key) (w : World Sp) (D D' : JobDir Sp) (c : Content Sp)
+    (hxy : x ≠ y) (hx : w x = some D) (hsp : D.sp = some c) (hb : D.bak = none)
+    (hy : w y = some D') (hD' : D'.isEmpty = false) :
+    let w1 := upd w x (some { D with sp := none, bak := some c })
+    apply C w (.spToBak x) = .ok w1 ∧ apply C w1 (.renameDir x y) = .error .ENOTEMPTY ∧
+      apply C w1 (.bakToSp x) = .ok w := Life.rekey_collision_steps C x y w D D' c hxy hx hsp hb hy hD'
+
+/-- exactness has one proviso, visible when `x` is NOT required to be settled: a stale backup file
+    `…json~` that `x` already had is overwritten by the parking step and gone afterwards — that is
+    the only difference (strays and payload of `x`, `y`, everything else: identical) -/
+theorem rekey_collision_stale_backup (C : Codec Sp) (x y : Key) (v v0 : Sp) (w : World Sp) (D D' : JobDir Sp)
+    (hxy : x ≠ y) (hx : w x = some D) (hsp : D.sp = some (.ok v0)) (hh : C.hash v0 = x.2)
+    (hy : w y = some D') (hD' : D'.isEmpty = false) :
+    run C noEv (rekeyProg C x y v) w =
+      ⟨upd w x (some { D with bak := none }), destExists,
+       ⟨3, [.bakToSp x, .renameDir x y, .spToBak x], false⟩⟩ :=
+  rekey_collision_run C x y v v0 w D D' hxy hx hsp hh hy hD'
+
+/-- one injected fault (`e ≠ ENOENT`) in a re-key collision.
+    Fault in the parking step or in the rename: the world is still exactly the initial one (for the
+    rename whatever `y` holds; the exception is DestinationExistsError for EEXIST/ENOTEMPTY/EACCES).
+    Fault in the ROLLBACK: NOT restored — the state-point file of `x` stays parked as backup, which is
+    the whole difference; `x` is then reported by `check()` (this is the C11 `rekey_safe` alternative
+    "exception ⇒ old job intact or a directory reported by check()", made exact). -/
+theorem rekey_collision_single_fault (C : Codec Sp) (x y : Key) (v v0 : Sp) (w : World Sp) (D D' : JobDir Sp)
+    (e : Errno) (he : e ≠ .ENOENT) (hxy : x ≠ y) (hx : w x = some D) (hD : Settled C x.2 D)
+    (hsp : D.sp = some (.ok v0)) (hy : w y = some D') (hD' : Settled C y.2 D') :
+    run C (faultAt 0 e) (rekeyProg C x y v) w = ⟨w, osExc e, ⟨1, [.spToBak x], true⟩⟩ ∧
+    run C (faultAt 1 e) (rekeyProg C x y v) w =
+      ⟨w, if e = .EEXIST ∨ e = .ENOTEMPTY ∨ e = .EACCES then destExists else osExc e,
+       ⟨3, [.bakToSp x, .renameDir x y, .spToBak x], true⟩⟩ ∧
+    run C (faultAt 2 e) (rekeyProg C x y v) w =
+      ⟨upd w x (some { D with sp := none, bak := some (.ok v0) }), osExc e,
+       ⟨3, [.bakToSp x, .renameDir x y, .spToBak x], true⟩⟩ ∧
+    corruptAt C (upd w x (some { D with sp := none, bak := some (.ok v0) })) x = true := by
+  have hh : C.hash v0 = x.2 := by
+    obtain ⟨v1, h1, h2⟩ := hD.sp
+    rw [hsp] at h1; cases h1; exact h2
+  exact ⟨rekey_collision_fault0 C x y v w e he,
+    rekey_collision_fault1 C x y v v0 w D e he hx hsp hh hD.bak,
+    rekey_collision_fault2 C x y v w D D' _ e he hxy hx hsp hy (settled_not_empty C hD')⟩
+
+/- ---- non-vacuity ---- -/
+/-- `init_settled_no_step` / `init_twice_no_step`: job `j` of the C11 counter-example world is settled
+    (the world holds a data file, so "nothing rewritten" is not about an empty directory);
+    `(0, "x")` is absent and `hash 2 = "x"` -/
+example : cexW cexSrc = some cexS ∧ Settled cexCodec cexSrc.2 cexS ∧ cexW (0, "x") = none ∧
+    cexCodec.hash 2 = "x" :=
+  ⟨by simp [cexW, cexSrc], cexW_clean cexSrc cexS (by simp [cexW, cexSrc]), by decide, rfl⟩
+
+/-- a world with two more settled jobs: a copy of `j` in project 1 and job `x` in project 0 -/
+def cexW2 : World Nat := upd (upd cexW cexDst (some cexS)) (0, "x") (some { sp := some (.ok 2) })
+
+/-- `rekey_collision_no_damage` / `rekey_collision_single_fault`: source `j`, destination `x` (re-key)
+    resp. the copy in project 1 (move, clone) -/
+example : cexSrc ≠ (0, "x") ∧ cexW2 cexSrc = some cexS ∧ Settled cexCodec cexSrc.2 cexS ∧
+    cexW2 (0, "x") = some { sp := some (.ok 2) } ∧
+    Settled cexCodec "x" ({ sp := some (.ok 2) } : JobDir Nat) ∧
+    cexSrc ≠ cexDst ∧ cexW2 cexDst = some cexS ∧ Settled cexCodec cexDst.2 cexS :=
+  ⟨by decide, by simp [cexW2, upd, cexW, cexSrc, cexDst], cexW_clean cexSrc cexS (by simp [cexW, cexSrc]),
+   by simp [cexW2, upd], settled_fresh cexCodec "x" 2 rfl, by decide,
+   by simp [cexW2, upd, cexDst], cexW_clean cexSrc cexS (by simp [cexW, cexSrc])⟩
 
 end Signac.Refinement
